@@ -4,24 +4,33 @@ from translators import tr_c16
 
 PID = "C16"
 CLAIM = True
-MANIFEST_TEXT = ("Lean 4 theorems over a model in which an iterator is (container, position) and every public operator is derived "
+MANIFEST_TEXT = ("Lean 4 theorems (45) over a model in which an iterator is (container, position) and every public operator is derived "
                  "exactly as iteratorfacades.hh derives it (legacy Forward/Bidirectional/RandomAccess facades incl. both "
-                 "is_convertible branches, the new IteratorFacade over a base iterator, the hand-written IntegralRangeIterator, "
-                 "IndexedIterator): ++/-- inverse, it+n / it+=n / it[n] = n single steps, (a+n)-a = n, the six comparisons = "
-                 "position order (a strict order), const/mutable equality; IntegralRange enumerates from..to-1, transformed "
-                 "ranges apply f once per element in order, sparse ranges pair entries with indices, static and dynamic "
-                 "Hybrid::size/elementAt/forEach/accumulate/ifElse/switchCases agree.  Each run executes the same expressions "
-                 "on every iterator type the library builds and diffs against the model, with an integer-position oracle.")
-MANIFEST_NOTE = ("Trusted: Lean kernel (+propext/Classical.choice/Quot.sound), the hand-written model's fidelity (differential "
-                 "run only), g++/libstdc++ iterators as base iterators, ASan/UBSan.  Overload selection (which facade operator / "
-                 "Hybrid overload the compiler picks) is a compile-time fact the model takes as given; integer wrap-around of "
-                 "narrow integral types is outside the model (positions and differences are assumed representable).")
-TECHNIQUE = "Lean 4 proof over facade-derivation model + differential correspondence on all library iterator kinds with integer-position oracle"
+                 "is_convertible branches, the new IteratorFacade over a base iterator incl. its derived()+=1 branch, the "
+                 "hand-written IntegralRangeIterator, IndexedIterator, the pointer chasing SLList iterators): ++/-- inverse, "
+                 "it+n / it+=n / it[n] = n single steps, every HISTORY of stepping operators = one advance by the net "
+                 "displacement, (a+n)-a = n, the machine difference of IntegralRangeIterator = the true difference whenever "
+                 "representable, the six comparisons = position order (a strict order), const/mutable equality; IntegralRange "
+                 "/ StaticIntegralRange enumerate from..to-1 (loops proved for every sufficient fuel), transformed ranges apply "
+                 "f once per element in order, sparse ranges pair entries with indices, static and dynamic Hybrid::size/"
+                 "elementAt/forEach/accumulate/ifElse/switchCases and the integer_sequence helpers agree.  The one-line "
+                 "operator bodies (87 pieces) are re-read from the headers by a translator on every run and the theorems are "
+                 "proved about the generated expressions; each run also executes the same expressions and histories on every "
+                 "iterator type the library builds and diffs against the model, with an integer-position oracle.")
+MANIFEST_NOTE = ("Trusted: Lean kernel (+propext/Classical.choice/Quot.sound), the translator's reading of the operator bodies "
+                 "(canonical form on grid-equivalence; unparsed pieces fall back to the correspondence run), the hand-written "
+                 "rest of the model (differential run only), g++/libstdc++ iterators as base iterators, ASan/UBSan.  Overload "
+                 "selection (which facade operator / Hybrid overload the compiler picks) is a compile-time fact the model "
+                 "takes as given; apart from the iterator difference, integer wrap-around of narrow integral types is outside "
+                 "the model (positions within the range are assumed representable).")
+TECHNIQUE = ("Lean 4 proof over facade-derivation model whose operator bodies are translated from the headers on every run + "
+             "differential correspondence on all library iterator kinds (single expressions and operation histories) with "
+             "integer-position oracle")
 TRANSLATORS = [tr_c16.translate]
 HARNESS = dict(
     sources=["cxx_c16.cc"],
     repo_sources=["dune/common/exceptions.cc", "dune/common/stdstreams.cc"],
-    # the harness instantiates ~35 iterator kinds; -O0/-g1 keeps its compile time at ~25 s (sanitizers stay on)
+    # the harness instantiates ~42 iterator kinds; -O0/-g1 keeps its compile time at ~35 s (sanitizers stay on)
     flags=["-O0", "-g1"],
 )
 RULE = ("cases: one iterator expression (++, --, +=, -=, +, -, n+it, [], *, index(), -, ==, !=, <, <=, >, >=) x iterator kind "
@@ -30,17 +39,30 @@ RULE = ("cases: one iterator expression (++, --, +=, -=, +, -, n+it, [], *, inde
         "vector/list/forward_list, IntegralRange over 7 integral types incl. bounds at the type limits, transformed ranges "
         "over vector/list/forward_list/IntegralRange, sparse range) x container size 0..12 x position(s) begin..end (and "
         "before-begin where offered) x step count of either sign x const/mutable operands; whole-range enumerations; hybrid "
-        "helpers on tuple/TupleVector/array/integer_sequence/static ranges vs vectors.  distinct = distinct op lines; "
+        "helpers on tuple/TupleVector/array/integer_sequence/static ranges vs vectors; round 2: operation histories of up "
+        "to 24 stepping operators on one iterator object, mutable->const conversion, beforeEnd()/find(), operator->, "
+        "ModifyIterator x iterator, ArrayList after purge(), IndexedIterator over DenseIterator, an IteratorFacade client "
+        "without base iterator (+= branch of ++/--), TransformedRangeIterator with a function object, unsigned ranges "
+        "straddling the signed maximum (u8/u32/u64 incl. values >= 2^63), range(to)/pair constructors, "
+        "TransformedRangeView size/empty/[], sparseRange over DiagonalMatrix rows, three-argument switchCases, "
+        "integralRange(end), integer_sequence get/front/back/head/tail/push_*/size/empty/contains/difference/equal/sorted.  "
+        "distinct = distinct op lines; "
         "non-trivial = oracle-checked (malformed lines answer bad-op and are trivial)")
 ASSUMPTIONS = [
-    "the Lean model lean/DuneVerif/Model/C16.lean is hand-written; its fidelity to iteratorfacades.hh, rangeutilities.hh, "
-    "indexediterator.hh and hybridutilities.hh rests on this differential run",
+    "the operator bodies of lean/DuneVerif/Gen/C16.lean are regenerated from the headers by tools/translators/tr_c16.py "
+    "(a body that agrees with its canonical form on an integer/boolean grid is emitted in canonical form; a body the "
+    "translator cannot read is emitted in canonical form and listed in Gen.unparsed); the rest of "
+    "lean/DuneVerif/Model/C16.lean (which primitive an operator calls, loops, IndexedIterator, hybrid helpers) is "
+    "hand-written and its fidelity rests on this differential run",
     "iterators of std::vector/std::list/std::forward_list used as base iterators behave as positions (trusted libstdc++)",
-    "positions, step counts and differences stay representable in the iterator's value/difference type (no wrap-around modelled)",
+    "positions and step counts stay representable in the iterator's value/difference type (wrap-around is modelled for the "
+    "difference of two IntegralRangeIterators only)",
     "which overload / is_convertible branch the compiler selects for a kind is tabulated in the driver (kinfo), not derived",
-    "the model describes the repaired IntegralRangeIterator (fixes/C16_integralrange_strict_order.patch, applied to /repo as 781d470): < and > strict",
+    "the model describes the repaired IntegralRangeIterator (fixes/C16_integralrange_strict_order.patch, applied to /repo as 781d470: "
+    "< and > strict; fixes/C16_integralrange_diff_overflow.patch: difference formed in the unsigned type)",
+    "SLList nodes have pairwise distinct addresses (hypothesis Nodup of sll_iterator_is_position)",
 ]
-TRUSTED = ["g++/libstdc++, ASan/UBSan", "harness/cxx_c16.cc (type-erased law checker, integer oracle) + Driver/C16.lean parsing/printing"]
+TRUSTED = ["g++/libstdc++, ASan/UBSan", "tools/translators/tr_c16.py (reading of one-line operator bodies)", "harness/cxx_c16.cc (type-erased law checker, integer oracle) + Driver/C16.lean parsing/printing"]
 
 
 def batches(tier, seed):
